@@ -648,6 +648,10 @@ pub struct Sim {
     pub acks: AckModel,
     /// (etag, ctag) -> (version, first tick at which that version was observable) of the last edit.
     pub last_edit: BTreeMap<(u8, u8), (u8, Option<u32>)>,
+    /// Send-once components: (client, entity bits) -> [(tick of a full send, value sent)].
+    pub once_sent: BTreeMap<(usize, u64), Vec<(u32, CV)>>,
+    /// Entities whose send-once component was (re)inserted since the last tick.
+    pub once_inserted: BTreeSet<u64>,
     /// Confirmed tick seen last per (client, client entity) - C02 oracle state.
     pub prev_confirmed: BTreeMap<(usize, u64), u32>,
 }
@@ -686,6 +690,8 @@ impl Sim {
             server_stopped_pending_reset: false,
             acks: AckModel::default(),
             last_edit: BTreeMap::new(),
+            once_sent: BTreeMap::new(),
+            once_inserted: BTreeSet::new(),
             prev_confirmed: BTreeMap::new(),
         };
         sim.snaps.insert(0, Snap::new());
@@ -774,6 +780,7 @@ impl Sim {
         self.acks.pending_acks.retain(|k| k.0 != c);
         self.acks.acked_tick.retain(|k, _| k.0 != c);
         self.acks.all.retain(|m| m.client != c);
+        self.once_sent.retain(|k, _| k.0 != c);
         self.acks.delivered.retain(|k| k.0 != c);
         if let Some(mut seen) = self.clients[c]
             .app
@@ -930,6 +937,11 @@ impl Sim {
         match op {
             Op::Mut(s, t) | Op::Ins(s, t) => {
                 self.last_edit.insert((s + 1, t), (v, None));
+                if t == TO && matches!(op, Op::Ins(..)) {
+                    if let Some(e) = self.alive(s) {
+                        self.once_inserted.insert(e.to_bits());
+                    }
+                }
             }
             Op::MutBig(s, _) | Op::InsBig(s, _) => {
                 self.last_edit.insert((s + 1, TBIG), (v, None));
@@ -1175,6 +1187,28 @@ impl Sim {
             let auth: Vec<bool> = (0..self.clients.len())
                 .map(|c| self.is_authorized(c))
                 .collect();
+            // send-once components: which (client, entity) received the component in full at this tick
+            let prev_tick = self.snaps.keys().next_back().copied();
+            for c in 0..self.clients.len() {
+                if !auth[c] {
+                    continue;
+                }
+                for (e, comps) in &snap {
+                    let Some(o) = comps.get(&TO) else { continue };
+                    if !vis[c].contains(e) {
+                        continue;
+                    }
+                    let had_before = prev_tick.is_some_and(|p| {
+                        self.auth_snaps[&p][c]
+                            && self.vis_snaps[&p][c].contains(e)
+                            && self.snaps[&p].get(e).is_some_and(|cs| cs.contains_key(&TO))
+                    });
+                    if !had_before || self.once_inserted.contains(e) {
+                        self.once_sent.entry((c, *e)).or_default().push((now, o.clone()));
+                    }
+                }
+            }
+            self.once_inserted.clear();
             self.snaps.insert(now, snap);
             self.vis_snaps.insert(now, vis);
             self.auth_snaps.insert(now, auth);
@@ -1565,6 +1599,26 @@ impl Sim {
                 ));
             };
             let server = snap.get(e);
+            if let Some(val) = ce.comps.get(&TO) {
+                // a send-once component holds the value of the last full send at or before the confirmed tick
+                if let Some(sent) = self.once_sent.get(&(c, *e)) {
+                    if let Some((ft, fv)) = sent.iter().rev().find(|(ft, _)| *ft <= t) {
+                        if fv != val {
+                            return Err(Violation::new(
+                                "",
+                                "once-value-mismatch",
+                                format!(
+                                    "client c{c} entity {} confirmed tick {t}: the send-once component is {} on the client, but it was last sent in full at tick {ft} with {}",
+                                    fmt_bits(*e),
+                                    val.show(),
+                                    fv.show()
+                                ),
+                            )
+                            .feat("comp:O"));
+                        }
+                    }
+                }
+            }
             for (tag, val) in &ce.comps {
                 if *tag == TP || *tag == TO {
                     continue;
